@@ -88,6 +88,7 @@ func historyValue(out *Out, v value, n int) {
 }
 
 func genHistory(out *Out, r *Rand, tier string) {
+	genRegHist(out, r, tier)
 	emitSchema(out)
 	long := 40000 // more than the 28,665 reuses after which the unfixed cache ran dry on a small value
 	if tier == "thorough" {
